@@ -309,48 +309,86 @@ def clamp(ctx, obs, rule='CLAMP'):
 
 
 def axes(ctx, obs, rule='AXIS'):
+    """Structural clauses decided by RECOGNISED forms: a recognised correct form discharges, a recognised wrong form (the model
+    axis averaged away, a NaN-blind mean over resamples, a pairwise matrix that is only ever written on one side of the diagonal)
+    is a violation, anything else is undecided.  Helpers of the same module that a test was split into are included."""
+    from ..rules.common import call_closure
     prog = ctx.prog
     for fn in ('t_tests', 't_test_0', 't_test_nc', 'ranksum_pair_test', 'ranksum_value_test'):
         q = U + fn
         f = prog.func(q)
-        red = [c for c in ast.walk(f.node) if isinstance(c, ast.Call) and _leaf(c.func) in ('nanmean', 'mean')
-               and c.args and isinstance(c.args[0], ast.Name) and c.args[0].id == 'evaluations']
-        ok = bool(red)
-        for c in red:
-            ax = c.args[1] if len(c.args) > 1 else next((k.value for k in c.keywords if k.arg == 'axis'), None)
-            v = ax.value if isinstance(ax, ast.Constant) else (-ax.operand.value if isinstance(ax, ast.UnaryOp) and isinstance(ax.operand, ast.Constant) else None)
-            if v not in (0, -1):
-                ok = False
-            obs.check(_leaf(c.func) == 'nanmean', 'MEANS', q, 'averaging over resamples / folds ignores NaN samples',
-                      f'`{norm(c)}` is NaN-blind', '', where(prog, f, c))
-        obs.check(ok, rule, q, 'evaluations are averaged over axis 0 and trailing axes only (the model axis survives)',
-                  f'{[norm(c) for c in red]}', '', where(prog, f, f.node))
+        red = []
+        for g in call_closure(ctx, q):
+            fg = prog.func(g)
+            for c in ast.walk(fg.node):
+                if isinstance(c, ast.Call) and _leaf(c.func) in ('nanmean', 'mean') and c.args:
+                    ax = c.args[1] if len(c.args) > 1 else next((k.value for k in c.keywords if k.arg == 'axis'), None)
+                    v = ax.value if isinstance(ax, ast.Constant) else (
+                        -ax.operand.value if isinstance(ax, ast.UnaryOp) and isinstance(ax.operand, ast.Constant) else None)
+                    red.append((fg, c, v))
+        con = 'evaluations are averaged over axis 0 and trailing axes only (the model axis survives)'
+        wrong = [(fg, c) for fg, c, v in red if v == 1]
+        blind = [(fg, c) for fg, c, v in red if _leaf(c.func) == 'mean' and v in (0, -1)]
+        if wrong:
+            obs.bad(rule, q, con, f'`{norm(wrong[0][1])}` averages over axis 1, the model axis', where(prog, wrong[0][0], wrong[0][1]))
+        elif any(v in (0, -1) for _, _, v in red):
+            obs.ok(rule, q, con, '', where(prog, f, f.node))
+        else:
+            obs.unk(rule, q, con, 'no averaging over axis 0 / -1 recognised', where(prog, f, f.node))
+        for fg, c in blind:
+            obs.bad('MEANS', q, 'averaging over resamples / folds ignores NaN samples', f'`{norm(c)}` is NaN-blind', where(prog, fg, c))
+        if not blind and red:
+            obs.ok('MEANS', q, 'averaging over resamples / folds ignores NaN samples', '', where(prog, f, f.node))
     for fn in ('ranksum_pair_test', 'bootstrap_pair_tests'):
         q = U + fn
         f = prog.func(q)
-        mirrored = False
-        for s in ast.walk(f.node):
-            if isinstance(s, ast.Assign) and isinstance(s.targets[0], ast.Subscript) and isinstance(s.value, ast.Subscript) \
-                    and isinstance(s.targets[0].slice, ast.Tuple) and isinstance(s.value.slice, ast.Tuple) \
-                    and len(s.targets[0].slice.elts) == 2 and len(s.value.slice.elts) == 2:
-                a, b = s.targets[0].slice.elts
-                c, d = s.value.slice.elts
-                if ast.dump(a) == ast.dump(d) and ast.dump(b) == ast.dump(c) and ast.dump(s.targets[0].value) == ast.dump(s.value.value):
-                    mirrored = True
-        obs.check(mirrored, rule, q, 'the pairwise matrix is filled symmetrically (m[j, i] = m[i, j])',
-                  'no mirrored assignment: the pairwise p-value matrix is not symmetric', '', where(prog, f, f.node))
+        r = ctx.dep.result(q)
+        out = None
+        for node, _, _ in r.returns:
+            if node is not None and isinstance(node.value, ast.Name):
+                out = node.value.id
+        writes = [s for s in ast.walk(f.node) if isinstance(s, ast.Assign) and isinstance(s.targets[0], ast.Subscript)
+                  and isinstance(s.targets[0].value, ast.Name) and s.targets[0].value.id == out
+                  and isinstance(s.targets[0].slice, ast.Tuple) and len(s.targets[0].slice.elts) == 2]
+        pairs = {(ast.dump(s.targets[0].slice.elts[0]), ast.dump(s.targets[0].slice.elts[1])) for s in writes}
+        mirrored = any((b, a) in pairs for a, b in pairs if a != b)
+        symmetrised = any(isinstance(n, ast.Attribute) and n.attr == 'T' and isinstance(n.value, ast.Name) and n.value.id == out
+                          for n in ast.walk(f.node)) or any(isinstance(c, ast.Call) and _leaf(c.func) in ('squareform', 'batch_to_matrices')
+                                                            for c in ast.walk(f.node))
+        con = 'the pairwise matrix is filled symmetrically (m[j, i] = m[i, j])'
+        if mirrored or symmetrised:
+            obs.ok(rule, q, con, '', where(prog, f, f.node))
+        elif writes and all(a != b for a, b in pairs):
+            obs.bad(rule, q, con, f'`{norm(writes[0])[:70]}` is the only kind of write into `{out}`: the entries on the other side of the '
+                    f'diagonal are never set, so the pairwise p-value matrix is not symmetric', where(prog, f, writes[0]))
+        else:
+            obs.unk(rule, q, con, 'fill pattern of the pairwise matrix not recognised', where(prog, f, f.node))
         diag = [c for c in ast.walk(f.node) if isinstance(c, ast.Call) and _leaf(c.func) == 'fill_diagonal']
         ok = bool(diag) and all(len(c.args) == 2 and isinstance(c.args[1], ast.Constant) and c.args[1].value == 1 for c in diag)
-        obs.check(ok, rule, q, 'the diagonal of the pairwise matrix is 1', f'{[norm(c) for c in diag]}', '', where(prog, f, f.node))
+        wrong_diag = [c for c in diag if len(c.args) == 2 and isinstance(c.args[1], ast.Constant) and c.args[1].value != 1]
+        if wrong_diag:
+            obs.bad(rule, q, 'the diagonal of the pairwise matrix is 1', f'`{norm(wrong_diag[0])}`', where(prog, f, wrong_diag[0]))
+        else:
+            obs.soft(ok, rule, q, 'the diagonal of the pairwise matrix is 1', f'{[norm(c) for c in diag]}', '', where(prog, f, f.node))
     # t_tests: two-sided via abs
     q = U + 't_tests'
     f = prog.func(q)
-    ok = any(isinstance(c, ast.Call) and _leaf(c.func) == 'abs' for c in ast.walk(f.node))
-    obs.check(ok, rule, q, 'pairwise t-test is two-sided (|t|), hence symmetric', 'no abs() on the t statistic', '', where(prog, f, f.node))
+    ok = any(isinstance(c, ast.Call) and _leaf(c.func) in ('abs', 'absolute', 'fabs') for c in ast.walk(f.node))
+    obs.soft(ok, rule, q, 'pairwise t-test is two-sided (|t|), hence symmetric', 'no abs() on the t statistic', '', where(prog, f, f.node))
     ok = any(isinstance(c, ast.Call) and _leaf(c.func) == 'pairwise_contrast' for c in ast.walk(f.node)) and \
         any(isinstance(c, ast.Call) and _leaf(c.func) == 'batch_to_matrices' for c in ast.walk(f.node))
-    obs.check(ok, rule, q, 'differences follow the pairwise-contrast order and are unfolded with batch_to_matrices',
-              'contrast / unfolding pair not found', '', where(prog, f, f.node))
+    # pair orders: pairwise_contrast / squareform / batch_to_matrices / triu_indices(k=1) / combinations enumerate the pairs (i < j)
+    # row by row of the UPPER triangle; np.tril_indices enumerates the lower triangle row by row, which is a different sequence of
+    # pairs from four models on - a vector in one order must not be scattered with indices of the other
+    upper = any(isinstance(c, ast.Call) and _leaf(c.func) == 'pairwise_contrast' for c in ast.walk(f.node))
+    lower = [c for c in ast.walk(f.node) if isinstance(c, ast.Call) and _leaf(c.func) == 'tril_indices']
+    if upper and lower:
+        obs.bad(rule, q, 'differences follow the pairwise-contrast order when they are unfolded into the matrix',
+                f'`{norm(lower[0])}` enumerates the pairs of the lower triangle row by row, the contrast vector is in upper-triangle order: '
+                f'from four models on the p-values land at other model pairs', where(prog, f, lower[0]))
+    else:
+        obs.soft(ok, rule, q, 'differences follow the pairwise-contrast order and are unfolded with batch_to_matrices',
+                 'contrast / unfolding pair not found', '', where(prog, f, f.node))
 
 
 def means(ctx, obs, rule='MEANS'):
